@@ -65,6 +65,11 @@ class RmsNormFusion(pattern.RewriteRuleClassBase):
         epsilon_value = _ir_utils.get_singleton_value(epsilon)
         if not isinstance(epsilon_value, float):  # TODO: support other types
             return check_result.fail("Epsilon is not a float value.", epsilon)
+        # The fused op returns a tensor of the shape of x: neither operand may add dimensions by broadcasting.
+        if not _ir_utils.broadcast_keeps_rank(epsilon, x):
+            return check_result.fail("Epsilon has a higher rank than the input.", epsilon)
+        if not _ir_utils.broadcast_keeps_rank(scale, x):
+            return check_result.fail("Scale is not known to have at most the rank of the input.", scale)
         if x.dtype not in float_types:
             return check_result.fail("Input is not a float type.", x)
         if scale.dtype not in float_types:
